@@ -690,4 +690,11 @@ def build_extra():
     # overlapping stops: the game mode's own stop waits for every game mode, also one that is already stopping (C06's
     # game stop set); a stopping mode releases and forgets exactly the queue relays of its own context (C02's relay set)
     from . import C06, C02
-    return [c07b, c13, C06.game_stop_set("C07g"), C02.relay_player_set("C07q")]
+    # 'leaves nothing behind' rests on handler removal by key: the key handed out by add_handler must name the list the
+    # handler was filed under (the PARSED event name), and removal by key removes exactly that entry (C01's contracts)
+    from . import C01
+    c01 = C01.build()
+    c01.pid = "C07e"
+    c01.replay_pid = "C01"
+    c01.only_verify = ["EventManager.add_handler", "EventManager.remove_handler_by_key"]
+    return [c07b, c13, C06.game_stop_set("C07g"), C02.relay_player_set("C07q"), c01]
